@@ -3,6 +3,7 @@ import XmppModel.Lemmas.Negotiate
 import XmppModel.Lemmas.NegotiateReach
 import XmppModel.Lemmas.NegotiateTerm
 import XmppModel.Lemmas.Component
+import XmppModel.Lemmas.Deadline
 import XmppModel.Generated.C04
 /-!
 # C04 — session establishment fails closed under faults
@@ -18,17 +19,33 @@ open XmppModel XmppModel.Negotiate
 
 variable {C : List Feature} {O : Oracle} {st0 : St} {script : List Peer} {picks : List FName}
 
-/-- tie to the source: what the real `negotiateSession` does with the result of a negotiator
-call, for every kind of result (mask with/without `Ready`, new ReadWriter or not, error or
-not, context cancelled during the call or not): an error or a cancelled context ends the
-session with an error, without applying the mask and without a further call (the `ret` step
-of the model); otherwise the mask is applied and the loop goes on until `Ready` -/
-theorem C04_gen_loop : ∃ t, Generated.C04.loopTable = some t ∧
+/-- what C04 demands of one row of `Generated.C04.loopTable` -/
+def loopRowOk : Bool × Bool × Nat × Nat × Bool × Bool × Bool × Nat → Bool
+  | (maskReady, _restart, errKind, ctxDone, failed, ready, applied, calls) =>
+    if errKind != 0 || ctxDone != 0 then failed && !ready && !applied && calls == 1
+    else !failed && ready && applied && calls == (if maskReady then 1 else 2)
+
+/-- tie to the source (probe of the real code): what `negotiateSession` does with the result of a
+negotiator call, for every kind of result — mask with/without `Ready`, new ReadWriter or not, no error
+or an error of **any kind of value** (plain, a `net.Error` time-out, temporary, closed connection,
+`io.ErrUnexpectedEOF`, `context.DeadlineExceeded`, `context.Canceled`, `io.EOF` — all with a live
+context), context live or done during the call (cancel function, far deadline + cancel, cancelled
+parent): an error or a done context ends the session with an error, without applying the mask and
+without a further call (the `ret` step of the model, which therefore need not know the kind of
+error); otherwise the mask is applied and the loop goes on until `Ready` -/
+theorem C04_gen_loop : ∃ t, Generated.C04.loopTable = some t ∧ t.length = 144 ∧
     ∀ r ∈ t, match r with
-      | (maskReady, _restart, fail, cancelled, failed, ready, applied, calls) =>
-        if fail || cancelled then failed = true ∧ ready = false ∧ applied = false ∧ calls = 1
-        else failed = false ∧ ready = true ∧ applied = true ∧ calls = (if maskReady then 1 else 2) :=
-  ⟨_, rfl, by decide⟩
+      | (maskReady, _restart, errKind, ctxDone, failed, ready, applied, calls) =>
+        if errKind ≠ 0 ∨ ctxDone ≠ 0 then failed = true ∧ ready = false ∧ applied = false ∧ calls = 1
+        else failed = false ∧ ready = true ∧ applied = true ∧ calls = (if maskReady then 1 else 2) := by
+  refine ⟨_, rfl, rfl, ?_⟩
+  have h : (Generated.C04.loopTable.getD []).all loopRowOk = true := by
+    set_option maxRecDepth 8000 in decide
+  intro r hr
+  have := List.all_eq_true.mp h r hr
+  obtain ⟨a, b, c, d, e, f, g, k⟩ := r
+  simp only [loopRowOk] at this
+  split at this <;> rename_i hc <;> simp_all
 
 /-- **a nil error only for a clean run**: if session establishment reports success, every
 executed step — every read, every write, every `List`, `Parse` and `Negotiate` callback —
@@ -114,30 +131,39 @@ def quiet : Oracle :=
 
 
 
-/-- which deadlines the named setter moves: (read, write) -/
-def dlOfSetter (s : String) : Bool × Bool :=
-  if s == "SetDeadline" then (true, true)
-  else if s == "SetReadDeadline" then (true, false)
-  else if s == "SetWriteDeadline" then (false, true)
-  else (false, false)
+open XmppModel.Deadline in
+/-- tie to the source (probe of the real code, replaces the reading of `setDeadline`'s syntax): the
+real `negotiateSession` is run on a recording `net.Conn`; whenever the context is done — at entry or
+during a step — the negotiation step sees **both** the read and the write deadline of the connection
+in the past (whichever setters the watcher uses, through whatever helper), and establishment fails;
+these are the hypotheses `O.dlRd = true`, `O.dlWr = true` of `C04_cancel_progress` -/
+theorem C04_gen_deadline : ∃ t, Generated.C04.deadlineProbe = some t ∧
+    moves false t = true ∧ moves true t = true ∧ ∀ r ∈ t, rowOk r = true :=
+  ⟨_, rfl, by decide, by decide, by decide⟩
 
-/-- deadlines moved by a list of setter calls -/
-def dlOfSetters (l : List String) : Bool × Bool :=
-  l.foldl (fun a s => (a.1 || (dlOfSetter s).1, a.2 || (dlOfSetter s).2)) (false, false)
+open XmppModel.Deadline in
+/-- tie to the source (probe, replaces the reading of `negotiateSession`'s syntax): the watcher acts
+for **every kind of context** — cancel function, far deadline cancelled explicitly, timeout nested in
+a cancelled parent, near deadline that expires — done at entry or during a step (each combination is
+in the table), so "the context is done" of the model needs no kind; and a context that is never done
+never gets a deadline in the past -/
+theorem C04_gen_watcher : ∃ t, Generated.C04.deadlineProbe = some t ∧ covers t = true ∧
+    ∀ (k : Fin 4) (m : Fin 3), ∃ r ∈ t, r.1 = k.val ∧ r.2.1 = m.val ∧ rowOk r = true :=
+  ⟨_, rfl, by decide, by decide⟩
 
-/-- tie to the source: the calls `conn.Set…Deadline(aLongTimeAgo)` in `setDeadline` of
-session.go (read from its AST), taken together, move the read **and** the write deadline — the
-hypotheses `O.dlRd = true`, `O.dlWr = true` of `C04_cancel_progress` -/
-theorem C04_gen_deadline : ∃ l, Generated.C04.deadlineSetters = some l ∧ dlOfSetters l = (true, true) :=
-  ⟨_, rfl, by decide⟩
+open XmppModel.Deadline in
+/-- the watcher of `Session.Send` (after establishment; it shares its code with the watcher of the
+handshake since the helper was extracted): the write deadline is in the past while the element is
+produced once the context is done, never for a live context -/
+theorem C04_gen_send_deadline : ∃ t, Generated.C04.sendProbe = some t ∧ t.length = 9 ∧
+    ∀ r ∈ t, sendRowOk r = true :=
+  ⟨_, rfl, by decide, by decide⟩
 
-/-- tie to the source: `negotiateSession` starts the context watcher unconditionally for every
-`net.Conn` (the `defer setDeadline(ctx, conn)()` stands directly in the `rw.(net.Conn)` branch) and
-never consults `ctx.Deadline()` — whatever kind of context it is given (cancel function, deadline,
-timeout, child of a cancelled parent), "the context is done" reaches the connection through the
-watcher; copying the context's deadline to the connection instead would lose an explicit
-cancellation that comes before that deadline -/
-theorem C04_gen_watcher : Generated.C04.watcherStart = some (true, false) := by decide
+/-- which deadlines the code moves when the context is done, read off the probe -/
+def codeDl : Bool × Bool :=
+  match Generated.C04.deadlineProbe with
+  | some t => (Deadline.moves false t, Deadline.moves true t)
+  | none => (false, false)
 
 /-- **cancellation ends a blocked read and a blocked write alike**: if the context watcher
 moves both deadlines, a call that is blocked — in a read because the peer is silent
@@ -149,6 +175,19 @@ theorem C04_cancel_progress {c : Conf} (h : Reach C O st0 script picks c)
     O.cancel c.tr = false := by
   have := (invU_reach h).hung wr hh
   cases wr <;> simp_all
+
+/-- **the same with the hypothesis discharged from the code**: for the deadlines the real watcher
+moves (`codeDl`, computed from the probe of the real `negotiateSession`), a run is never left hanging
+in a read or in a write once the context is done -/
+theorem C04_cancel_progress_code {c : Conf} (h : Reach C O st0 script picks c)
+    (hO : (O.dlRd, O.dlWr) = codeDl) {wr : Bool} (hh : c.pc = .hung wr) : O.cancel c.tr = false := by
+  have hc : codeDl = (true, true) := by decide
+  rw [hc] at hO
+  injection hO with h1 h2
+  exact C04_cancel_progress h h1 h2 hh
+
+-- the hypothesis of `C04_cancel_progress_code` is satisfiable: the quiet oracle has it
+example : (quiet.dlRd, quiet.dlWr) = codeDl := by decide
 
 /-- one step: a blocked operation whose deadline was moved fails as soon as the context is done:
 the failure event of that operation is logged and the run ends in `fail io` -/
